@@ -586,6 +586,13 @@ def _obligations_for(prop, tier):
             obs += p_double_edges(2)
             obs += with_history(wf_cubes(3, ["private"], 2, name="kinds", edge_sets=[[(0, 1), (1, 2)], [(0, 1), (0, 2)]], kinds=(0, 1)), "after-backward", 1)
             obs += p_subproject_edges(2)
+            # dependencies added after a first run, with the bulk editing call
+            obs += with_history(wf_cubes(3, ["private"], 2, name="kinds", edge_sets=[[(0, 1), (1, 2)], [(0, 2), (1, 2)]], kinds=(0, 1, 2)), "late-edges", 0)
+            # tasks listed in the workflow in another order than the dependencies run (finish constraints in a chain)
+            for order in ([0, 2, 1], [2, 1, 0]):
+                for ob in wf_cubes(3, ["private"], 2, name="kinds-listed-%s" % "".join(map(str, order)), edge_sets=[[(0, 1), (1, 2)]], kinds=(2, 3)) + \
+                        wf_cubes(3, ["private"], 2, name="kinds-listed-%s" % "".join(map(str, order)), edge_sets=[[(0, 1), (0, 2)], [(0, 2), (1, 2)]], kinds=(0, 2)):
+                    obs.append(dict(ob, cube={"spec": dict(ob["cube"]["spec"], tl_order=order)}))
             obs += with_decoy(wf_cubes(3, ["private"], 2, name="kinds", edge_sets=[[(0, 1), (1, 2)]]), (0, 1))
             obs += with_decoy(wf_cubes(3, ["private"], 2, name="kinds", edge_sets=[[(0, 1), (0, 2)]], kinds=(0, 2)), (1,))
         else:
@@ -598,6 +605,10 @@ def _obligations_for(prop, tier):
             chain = [[(0, 1), (1, 2), (2, 3)], [(0, 1), (0, 2), (1, 3), (2, 3)]]
             obs += wf_cubes(4, ["private"], 2, kinds=(0, 1), edge_sets=chain, H=12, name="kinds4", timeout=900)
             obs += p_subproject_edges(3, H=12, timeout=600)
+            obs += with_history(wf_cubes(3, ["private"], 3, name="kinds", edge_sets=[[(0, 1), (1, 2)], [(0, 2), (1, 2)], [(0, 1), (0, 2)]], H=12, timeout=600), "late-edges", 0)
+            for order in ([0, 2, 1], [2, 1, 0], [1, 0, 2]):
+                for ob in wf_cubes(3, ["private"], 3, name="kinds-listed-%s" % "".join(map(str, order)), edge_sets=[[(0, 1), (1, 2)], [(0, 1), (0, 2)], [(0, 2), (1, 2)]], H=12, timeout=600):
+                    obs.append(dict(ob, cube={"spec": dict(ob["cube"]["spec"], tl_order=order)}))
             obs += with_decoy(wf_cubes(3, ["private"], 3, name="kinds", edge_sets=[[(0, 1), (1, 2)], [(0, 1), (0, 2)]], H=12, timeout=600), (0, 1))
             obs += with_decoy(wf_cubes(3, ["private"], 3, name="kinds", edge_sets=[[(0, 1), (1, 2)], [(0, 1), (0, 2)]], H=12, timeout=600), (1,))
         return obs
@@ -627,6 +638,9 @@ def _obligations_for(prop, tier):
             cu = [ob for ob in p_contention(thorough, H=8, timeout=900 if thorough else 150)
                   if "/rule=0/" in ob["name"] and "fix=None" in ob["name"] and "solo=None" in ob["name"] and ("/indep/" in ob["name"] or thorough)]
             obs += with_unit_time(cu, 2, 24 if thorough else 16, widen=("a0", "a0b", "a2"))
+            # two workers of different teams had changed places during an earlier run of the same project
+            obs += with_history([ob for ob in cu if "teams=two" in ob["name"]] if not thorough else
+                                [ob for ob in p_contention(thorough, H=8, timeout=900) if "/rule=0/" in ob["name"] and "teams=two" in ob["name"] and "solo=None" in ob["name"]], "edited-teams", 0)
             fu = [ob for ob in p_facility(thorough, H=8, timeout=900 if thorough else 150) if "fixf=None" in ob["name"] and "solof=0" in ob["name"] and "fsk=all" in ob["name"]]
             obs += with_unit_time(fu, 2, 24 if thorough else 16, widen=("a1", "fa0"))
         if prop in ("C03", "C04", "C06"):
